@@ -61,7 +61,8 @@ pub fn draw_edit(rng: &mut Rng) -> Edit {
         21 => Edit::ReplaceExported { pick: rng.u32(), seed: rng.u64(), kind: draw_kind(rng) },
         22 => Edit::SetStart { seed: rng.u64() },
         23 => Edit::ClearStart,
-        24..=25 => Edit::InsertNeutral { func: rng.u32(), seq: rng.u32(), pos: rng.u32(), what: rng.below(4) as u8 },
+        24 => Edit::InsertNeutral { func: rng.u32(), seq: rng.u32(), pos: rng.u32(), what: rng.below(4) as u8 },
+        25 => Edit::InsertTerminator { func: rng.u32(), seq: rng.u32(), pos: rng.u32(), what: rng.below(2) as u8 },
         26 => Edit::RenameFunc { pick: rng.u32(), name: draw_name(rng) },
         27 => match rng.below(2) {
             0 => Edit::RenameModule { name: draw_name(rng) },
@@ -340,7 +341,7 @@ impl Prop for C02 {
     }
 
     fn rule(&self) -> String {
-        "one case = (valid module, switch vector with only_stable off, history of 1-13 operations over emit / GC / re-parse / query / add custom / 21 kinds of well-formed API edit (exports, FunctionBuilder bodies incl. positional insertion and dangling sequences, globals, memories, tables, data, elements, replace_imported_func, replace_exported_func, start, type-neutral insertions into parsed bodies, renames, producers)); \
+        "one case = (valid module, switch vector with only_stable off, history of 1-13 operations over emit / GC / re-parse / query / add custom / 22 kinds of well-formed API edit (exports, FunctionBuilder bodies incl. positional insertion and dangling sequences, globals, memories, tables, data, elements, replace_imported_func, replace_exported_func, start, type-neutral insertions into parsed bodies, renames, producers)); \
          non-trivial = at least one emit was validated; distinct = distinct (input digest, switch vector, operation-kind sequence)"
             .to_string()
     }
